@@ -137,6 +137,26 @@ Theorem C01td_program_value_and_axis_order : forall n sl arr e0 pe l r,
 Proof. exact run_root_x_correct. Qed.
 Print Assumptions C01td_program_value_and_axis_order.
 
+(* (7) the interpreter itself: Contractor.__call__ (exec_program: the `temps` dictionary,
+       pre-processing instructions first, then one instruction per internal node, children
+       popped) run on the program extract_contractions emits for the default depth-first
+       order returns exactly the recursive execution of (5)/(6) ... *)
+Theorem C01td_interpreter_dfs_is_recursive : forall n sl arr e0 pe l r,
+  NoDup (leaves l ++ leaves r) ->
+  exec_program n sl arr e0 (program n sl pe (Node l r) (traverse_dfs (Node l r))) (Node l r)
+  = run_root_x n sl arr e0 pe (Node l r).
+Proof. exact exec_program_dfs. Qed.
+Print Assumptions C01td_interpreter_dfs_is_recursive.
+
+(* (8) ... hence, for every prefer_einsum, the array the interpreter returns has the declared
+       output axes in the declared order and holds the mathematical einsum *)
+Theorem C01td_interpreter_value_and_axis_order : forall n sl arr e0 pe l r,
+  wf_net n -> full_tree n (Node l r) ->
+  let res := exec_program n sl arr e0 (program n sl pe (Node l r) (traverse_dfs (Node l r))) (Node l r) in
+  fst res = map (dim n) (out_inds n sl) /  forall e, agree_removed sl e0 e -> snd res (map e (out_inds n sl)) = einsum_spec n sl arr e.
+Proof. exact exec_program_dfs_correct. Qed.
+Print Assumptions C01td_interpreter_value_and_axis_order.
+
 (* non-vacuity: 'ab,bc->ca' -- the root can be done by tensordot, and needs the transpose
    [1;0]; a 3-tensor chain where an inner node is a tensordot without transpose *)
 Local Open Scope nat_scope.
